@@ -638,6 +638,21 @@ impl Check for AddrCheck {
                 ensure!(name.into_addr_with_prefix(prefix) == a, "C18:trait-disagrees", "into_addr_with_prefix != MockApi.addr_make");
                 ensure!(name.into_addr() == MockApi::default().addr_make(name), "C18:trait-disagrees", "into_addr != MockApi::default().addr_make");
                 ensure!(name.into_bech32() == name.into_addr(), "C18:trait-disagrees", "into_bech32 (default prefix) != into_addr");
+                // the default codec takes a prefix in any case and always writes lower-case addresses: the
+                // trait form with the upper-case spelling of the prefix is that codec's addr_make, and valid under it
+                let upper = intern(&prefix.to_ascii_uppercase());
+                if upper != prefix {
+                    let up_api = MockApi::default().with_prefix(upper);
+                    if let Ok(made) = catch(|| up_api.addr_make(name)) {
+                        let by_trait = match catch(|| name.into_addr_with_prefix(upper)) {
+                            Ok(x) => x,
+                            Err(p) => fail!("C18:addr-make-panics", "{:?}.into_addr_with_prefix({:?}) panicked: {}", name, upper, p),
+                        };
+                        ensure!(by_trait == made, "C18:trait-disagrees", "{:?}.into_addr_with_prefix({:?}) = {:?} but MockApi with that prefix makes {:?}", name, upper, by_trait, made);
+                        let val = up_api.addr_validate(by_trait.as_str());
+                        ensure!(matches!(&val, Ok(x) if x == &by_trait), "C18:addr-make-not-valid", "the default codec with prefix {:?} does not accept {:?} made by the trait: {:?}", upper, by_trait, val);
+                    }
+                }
             }
             Variant::Bech32 => {
                 ensure!(name.into_bech32_with_prefix(prefix) == a, "C18:trait-disagrees", "into_bech32_with_prefix != MockApiBech32.addr_make");
